@@ -170,7 +170,7 @@ def run_tlc(
 _RE_STATES = re.compile(r"(\d+) states generated, (\d+) distinct states found")
 _RE_DEPTH = re.compile(r"The depth of the complete state graph search is (\d+)")
 _RE_INV = re.compile(r"Error: Invariant (\S+) is violated")
-_RE_PROP = re.compile(r"Error: (?:Temporal properties were violated|Action property (\S+) is violated)")
+_RE_PROP = re.compile(r"Error: (?:Temporal properties were violated|Temporal property (\S+) was violated|Action property (\S+) is violated)")
 _RE_COV = re.compile(r"^<(\w+) line \d+, col \d+ to line \d+, col \d+ of module (\w+)>: (\d+):(\d+)", re.M)
 _RE_SIMSTATES = re.compile(r"The number of states generated: (\d+)")
 
@@ -194,7 +194,7 @@ def _parse_output(r):
         r.invariant_violated = m.group(1)
     m = _RE_PROP.search(out)
     if m:
-        r.property_violated = m.group(1) or "temporal"
+        r.property_violated = m.group(1) or m.group(2) or "temporal"
     if "Error: Deadlock reached" in out:
         r.deadlock = True
     for m in _RE_COV.finditer(out):
